@@ -139,6 +139,13 @@ def items(tier):
                         for tolerant in ((False,) if quick else (False, True)):
                             for rerun in (False, True):
                                 out.append((L, P, nb, na, (e,), j, tolerant, rerun, False))
+    if quick:
+        # failure-ignoring scripts record the cycle in the database (every node builds "successfully"); the re-run meets it in
+        # the recorded graph, where redo's dirtiness walk itself has to notice it
+        for L in (1, 2, 3):
+            for P in (0, 1):
+                for j in (1, 4):
+                    out.append((L, P, 0, 0, (0,), j, True, True, False))
     # long rings (file ids of mixed decimal length in the inherited chain), entered directly and through a prefix
     for L in ((7, 9, 12) if quick else (7, 8, 9, 10, 12, 15)):
         for P in ((0, 2) if quick else (0, 1, 2, 3)):
